@@ -164,7 +164,7 @@ structure WorldIs (N : Int) (np : Nat) (V : Int → Vertex) (O : Nat → List PN
   len : w.length = np
   inv : ∀ r, r < np → RankInv N np V r (w.getD r default)
   grp : ∀ r, r < np → ∀ j, (w.getD r default).group j = G j r
-  own : ∀ r, r < np → ∀ n, (n ∈ (w.getD r default).nodes ∧ n.part = (r : Int)) ↔ n ∈ O r
+  own : ∀ r, r < np → (w.getD r default).nodes.filter (fun n => n.part == (r : Int)) = O r
   geo : ∀ r, r < np → (w.getD r default).geoms = [] ∧ (w.getD r default).cad = [] ∧
     (w.getD r default).nGlobal = N
 
@@ -210,7 +210,8 @@ theorem placeChunk_ok {N : Int} {np : Nat} {V : Int → Vertex} {O : Nat → Lis
     (fun r st st' => RankInv N np V r st' ∧
       st'.group k = st.group k ++ (directRaw N np r ch).map (norm ci) ∧
       (∀ j, j ≠ k → st'.group j = st.group j) ∧ st'.geoms = st.geoms ∧ st'.cad = st.cad ∧
-      st'.nGlobal = st.nGlobal ∧ (∀ n, (n ∈ st'.nodes ∧ n.part = (r : Int)) ↔ (n ∈ st.nodes ∧ n.part = (r : Int))))
+      st'.nGlobal = st.nGlobal ∧
+      st'.nodes.filter (fun n => n.part == (r : Int)) = st.nodes.filter (fun n => n.part == (r : Int)))
     w (by
       intro r hr
       rw [hW.len] at hr
@@ -220,7 +221,7 @@ theorem placeChunk_ok {N : Int} {np : Nat} {V : Int → Vertex} {O : Nat → Lis
       by_cases hemp : (directRaw N np r ch).isEmpty = true
       · rw [if_pos hemp]
         have : directRaw N np r ch = [] := List.isEmpty_iff.1 hemp
-        exact ⟨_, rfl, hW.inv r hr, by simp [this], fun _ _ => rfl, rfl, rfl, rfl, fun _ => Iff.rfl⟩
+        exact ⟨_, rfl, hW.inv r hr, by simp [this], fun _ _ => rfl, rfl, rfl, rfl, rfl⟩
       · rw [if_neg hemp]
         have hokb : ∀ c ∈ directRaw N np r ch, CellOK ci N c := fun c hc => hok c (List.mem_of_mem_filter hc)
         have hexact : addCells ci ((w.getD r default).group k) (directRaw N np r ch) =
@@ -236,10 +237,7 @@ theorem placeChunk_ok {N : Int} {np : Nat} {V : Int → Vertex} {O : Nat → Lis
               exact (List.filter_sublist).trans (List.sublist_append_left _ _)
             exact hdist.2.sublist hsl
           · rw [hW.grp r hr k, hG r hr, directRaw_append, List.map_append]
-        obtain ⟨st', h1, h2, h3, h4, h5, h6, h7, h8, h9⟩ :=
-          addManyGlobal_ok (hW.inv r hr) k ci hk (directRaw N np r ch) hokb hexact
-        exact ⟨st', h1, h2, h3, h4, h5, h6, h7, fun n =>
-          ⟨fun ⟨a, b⟩ => ⟨h9 n a b, b⟩, fun ⟨a, b⟩ => ⟨h8 n a b, b⟩⟩⟩)
+        exact addManyGlobal_ok (hW.inv r hr) k ci hk (directRaw N np r ch) hokb hexact)
   refine ⟨w', hw', ?_⟩
   have hlen' : w'.length = np := by rw [hlen, hW.len]
   refine ⟨hlen', ?_, ?_, ?_, ?_⟩
@@ -254,9 +252,9 @@ theorem placeChunk_ok {N : Int} {np : Nat} {V : Int → Vertex} {O : Nat → Lis
       show _ = List.map (norm ci) (directRaw N np r (pre ++ ch))
       rw [directRaw_append, List.map_append]
     · rw [if_neg hj, h3 j hj, hW.grp r hr j]
-  · intro r hr n
+  · intro r hr
     obtain ⟨_, _, _, _, _, _, h7⟩ := hR r (by rw [hW.len]; exact hr)
-    rw [h7 n]; exact hW.own r hr n
+    rw [h7]; exact hW.own r hr
   · intro r hr
     obtain ⟨_, _, _, h4, h5, h6, _⟩ := hR r (by rw [hW.len]; exact hr)
     obtain ⟨g1, g2, g3⟩ := hW.geo r hr
@@ -491,7 +489,8 @@ theorem shufflinCell_ok {N : Int} {np : Nat} {V : Int → Vertex} {O : Nat → L
       (fun r st st' => RankInv N np V r st' ∧
         st'.group k = (finalRaw N np ci r cs).map (norm ci) ∧
         (∀ j, j ≠ k → st'.group j = st.group j) ∧ st'.geoms = st.geoms ∧ st'.cad = st.cad ∧
-        st'.nGlobal = st.nGlobal ∧ (∀ n, (n ∈ st'.nodes ∧ n.part = (r : Int)) ↔ (n ∈ st.nodes ∧ n.part = (r : Int))))
+        st'.nGlobal = st.nGlobal ∧
+      st'.nodes.filter (fun n => n.part == (r : Int)) = st.nodes.filter (fun n => n.part == (r : Int)))
       w (by
         intro r hr
         rw [hW.len] at hr
@@ -508,10 +507,9 @@ theorem shufflinCell_ok {N : Int} {np : Nat} {V : Int → Vertex} {O : Nat → L
         have hexact : addCells ci ((w.getD r default).group k) ((recvRaw N np ci r cs).map (norm ci)) =
             (w.getD r default).group k ++ ((recvRaw N np ci r cs).map (norm ci)).map (norm ci) :=
           hdist.sub (l := finalRaw N np ci r cs) finalRaw_subset (finalRaw_norm_nodup hdist) _ _ hfin
-        obtain ⟨st', h1', h2, h3, h4, h5, h6, h7, h8, h9⟩ :=
+        obtain ⟨st', h1', h2, h3, h4, h5, h6, h7, h8⟩ :=
           addManyGlobal_ok (hW.inv r hr) k ci hk _ hokn hexact
-        exact ⟨st', h1', h2, by rw [h3, hfin], h4, h5, h6, h7, fun n =>
-          ⟨fun ⟨a, b⟩ => ⟨h9 n a b, b⟩, fun ⟨a, b⟩ => ⟨h8 n a b, b⟩⟩⟩)
+        exact ⟨st', h1', h2, by rw [h3, hfin], h4, h5, h6, h7, h8⟩)
     dsimp only
     rw [hw1]
     dsimp only
@@ -561,9 +559,9 @@ theorem shufflinCell_ok {N : Int} {np : Nat} {V : Int → Vertex} {O : Nat → L
       by_cases hj : j = k
       · subst hj; rw [if_pos rfl, h2]
       · rw [if_neg hj, h3 j hj, hW.grp r hr j]
-    · intro r hr n
+    · intro r hr
       obtain ⟨_, _, _, _, _, _, h7⟩ := hR r (by rw [hW.len]; exact hr)
-      rw [h7 n]; exact hW.own r hr n
+      rw [h7]; exact hW.own r hr
     · intro r hr
       obtain ⟨_, _, _, h4, h5, h6, _⟩ := hR r (by rw [hW.len]; exact hr)
       obtain ⟨g1, g2, g3⟩ := hW.geo r hr
